@@ -545,3 +545,20 @@ def equation_block(m, a, ci):
 def mathprimes_count(m, a, ci):
     n = _ast_node(m, a[0])
     return sum(1 for c in n.children if not is_sym(c.kind) and c.kind == KT.k('Prime'))
+
+
+@reg('Raw::block')
+def raw_block(m, a, ci):
+    n = _ast_node(m, a[0])
+    d = _first_cast(n, 'RawDelim')
+    if d is None:
+        return False
+    long_delim = i_ule(3, d.text.byte_len())
+    rt = KT.k('RawTrimmed')
+    has_nl = False
+    for c in n.children:
+        if is_sym(c.kind):
+            raise EncoderGap('Raw::block over a child with symbolic kind')
+        if c.kind == rt:
+            has_nl = b_or(has_nl, *[b_or(*[i_eq(ch, k, 32) for k in TYPST_NEWLINES]) for ch in c.text.chars])
+    return b_and(long_delim, has_nl)
